@@ -34,6 +34,7 @@ var c37Guards = []eng.LSGuard{
 }
 
 func runC37(c *core.Ctx) {
+	checkStaleVerdictNotRecorded(c)
 	checkVerifyBlockSetsRequestHeight(c)
 	var fns []*ssa.Function
 	for _, p := range []string{pkTxCom, pkTxProc} {
